@@ -355,19 +355,31 @@ theorem accept_ok_iff (h : Handshake) (token : Bytes → Bytes) (ext : Option By
           · simp [bind, Except.bind, ho, hm, throw, throwThe, MonadExceptOf.throw] at hr
   · intro ⟨hsp, vextra, hx⟩
     exact ⟨_, accept_rendered h token ext sp extra vextra hsp hx⟩
+/-- an extra header whose name, as it would be sent (stripped), is `sec-websocket-protocol`, a pseudo header or empty
+    makes the accept fail, wherever it stands in the list -/
 theorem forbidden_extra_refused (pre : Headers) (x : Header) (post : Headers)
-    (hx : x.1 = "sec-websocket-protocol".b ∨ Bytes.startsWith ":".b x.1 = true) :
+    (hx : Bytes.strip x.1 = "sec-websocket-protocol".b ∨ nameRefused (Bytes.strip x.1) = true) :
     ∃ e, validateExtra (pre ++ x :: post) = .error e := by
   induction pre with
   | nil =>
-    refine ⟨.exception, ?_⟩
-    rcases hx with hx | hx <;> simp [validateExtra, hx]
+    simp only [List.nil_append, validateExtra, validatePartBytes]
+    by_cases hc : hasCtl (Bytes.strip x.1) = true
+    · exact ⟨.valueError, by simp [hc]⟩
+    · refine ⟨.exception, ?_⟩
+      simp only [hc, Bool.false_eq_true, if_false]
+      rcases hx with hx | hx <;> simp [hx]
   | cons a r ih =>
     obtain ⟨e, he⟩ := ih
     simp only [List.cons_append, validateExtra]
-    split
-    · exact ⟨_, rfl⟩
-    · cases h1 : validatePartBytes a.1 <;> cases h2 : validatePartBytes a.2 <;> simp [bind, Except.bind, he]
+    cases h1 : validatePartBytes a.1 with
+    | error e1 => exact ⟨_, rfl⟩
+    | ok n =>
+      simp only
+      split
+      · exact ⟨_, rfl⟩
+      · cases h2 : validatePartBytes a.2 <;> simp [bind, Except.bind, he]
+
+example : ∃ e, validateExtra [("x-a".b, "1".b), (" :status".b, "200".b)] = .error e := forbidden_extra_refused [("x-a".b, "1".b)] _ [] (Or.inr (by decide))
 
 /-- **`websocket.accept` through `app_send`**: response head with exactly the rendered status and headers, one access
     record, state CONNECTED with an OPEN connection -/
